@@ -257,6 +257,22 @@ def check_roundtrip(ctx, pm, c, rid):
     if bad:
         ctx.violation("round-trip", "parse_release_id(create_release_id(parts)) == parts",
                       {"parts": c, "release_id": rid}, observed=got, expected=want, key=classify_roundtrip(c))
+    # call-history independence: parsing the release part alone AFTER the full id gives exactly the release parts,
+    # parsing the full id again gives the same answer, and a caller editing a returned dict changes nothing
+    if c.get("bp_short") and isinstance(got, dict):
+        try:
+            got["short"] = "edited-by-caller"
+            alone = pm["parse"](rid.split("@")[0])
+            again = pm["parse"](rid)
+        except Exception as e:
+            alone = again = "raised %s: %s" % (type(e).__name__, e)
+        want_alone = {"short": c["short"], "version": c["version"], "type": c["type"]}
+        bad = (alone != want_alone or again != want) and classify_roundtrip(c) is None
+        ctx.monitor("parse-independent-of-history", fired=bad)
+        if bad:
+            ctx.violation("parse-independent-of-history", "parse_release_id returns exactly the parts of the id it is given, whatever was parsed before",
+                          {"parts": c, "release_id": rid}, observed={"release part alone": alone, "full id again": again},
+                          expected={"release part alone": want_alone, "full id again": want})
     # shape of the created id: short-version[-type][@bp]
     exp = "%s-%s" % (c["short"], c["version"]) + ("" if c["type"] == "ga" else "-" + c["type"])
     if c.get("bp_short"):
